@@ -751,3 +751,215 @@ Proof.
     + unfold sA. cbn [rxs st_set_rxs]. rewrite upd_rx_comp by reflexivity. reflexivity.
     + intros z1 z2 E. unfold rx_core in *. injection E as E1 E2 E3 E4 E5. unfold kill. cbn. rewrite E1, E3, E4, E5. reflexivity.
 Qed.
+
+(** all steps *)
+Definition not_conv_r (o : op) : Prop := match o with ConvR _ => False | _ => True end.
+
+Lemma ok4_CloneR c kc r r' : step4_ok_for c kc (CloneR r r').
+Proof.
+  intros s sp0 sp s1 rs w sp1 vs I J Hs Hsp. cbn [step s4_step] in *.
+  destruct (live_rx r s) as [x|] eqn:Hl; [|same4 J].
+  destruct (find_rx r' (rxs s)) as [x'|] eqn:Hf'; [same4 J|].
+  apply live_rx_spec in Hl. destruct Hl as [Hx Hlive].
+  destruct (pair4_rx _ _ _ _ _ _ J Hx) as [y [Hy [Hinx [Hiny HR]]]].
+  pose proof (none4_rx _ _ _ _ _ J Hf') as Hnone.
+  set (yn := {| a_id := r'; a_live := true; a_closed := false; a_sawdisc := false |}).
+  destruct (disp_alive s) eqn:Eda.
+  - injection Hs as <- <- <-. rewrite Hy, Hnone in Hsp. injection Hsp as <- <-. split; [|apply vs4_ok_nil].
+    set (bd := fix05 c && fix04 c && Z.eqb (scount s) 0).
+    set (xn := new_rx r' (r_async x) false (m_cap (r_mb x)) bd).
+    set (s2 := st_set_rxs (st_set_rcount s (rcount s + 1)%Z) (rxs s ++ [xn])).
+    assert (J2 : Inv4 c kc s2 (s4_set_rx sp (s4_rx sp ++ [yn]))).
+    { constructor; cbn [txs rxs futs rcount scount s2 st_set_rxs st_set_rcount s4_rx s4_tx s4_futs s4_set_rx].
+      - apply (j_tx _ _ _ _ J).
+      - change (disp_alive s2) with (disp_alive s). apply Forall2_snoc; [apply (j_rx _ _ _ _ J)|].
+        constructor; cbn; auto; try (intros; discriminate). intros A. apply (p_sync _ _ _ _ _ _ _ HR A).
+      - apply (j_futs _ _ _ _ J).
+      - intros A B. rewrite filter_app, app_length. cbn [filter]. unfold rx_open_m at 2. cbn [xn new_rx r_live r_closed andb negb length].
+        rewrite (j_cnt _ _ _ _ J A Eda). lia.
+      - apply (j_sc _ _ _ _ J).
+      - intros A x0 Hx0 Hl0 Hd0. apply in_app_or in Hx0. destruct Hx0 as [Hx0|[<-|[]]].
+        + apply (j_quiet _ _ _ _ J A x0 Hx0 Hl0 Hd0).
+        + cbn in Hd0. unfold bd in Hd0. apply andb_true_iff in Hd0. destruct Hd0 as [Hd0 Hz].
+          apply andb_true_iff in Hd0. destruct Hd0 as [_ F4]. apply Z.eqb_eq in Hz.
+          apply quiet_count. rewrite (j_sc _ _ _ _ J F4) in Hz. lia. }
+    destruct (fold_frame (fun t a => subscribe_core r' t a) (r_subs x) (fun t s0 => subscribe_core_frame r' t s0) s2)
+      as [A1 [A2 [A3 [A4 A5]]]]. cbv zeta in *.
+    eapply inv4_frame; eauto.
+  - injection Hs as <- <- <-. rewrite Hy, Hnone in Hsp. injection Hsp as <- <-. split; [|apply vs4_ok_nil].
+    set (xn := new_rx r' (r_async x) true 0 (fix05 c)).
+    constructor; cbn [txs rxs futs rcount scount st_set_rxs s4_rx s4_tx s4_futs s4_set_rx].
+    + apply (j_tx _ _ _ _ J).
+    + change (disp_alive (st_set_rxs s (rxs s ++ [xn]))) with (disp_alive s). apply Forall2_snoc; [apply (j_rx _ _ _ _ J)|].
+      rewrite Eda. constructor; cbn; auto; try (intros; discriminate). intros A. apply (p_sync _ _ _ _ _ _ _ HR A).
+    + apply (j_futs _ _ _ _ J).
+    + intros A B. change (disp_alive (st_set_rxs s (rxs s ++ [xn]))) with (disp_alive s) in B. congruence.
+    + apply (j_sc _ _ _ _ J).
+    + intros A x0 Hx0 Hl0 Hd0. apply da_false_quiet. exact Eda.
+Qed.
+
+Theorem step4_ok c kc o : (kc = true -> not_conv_r o) -> step4_ok_for c kc o.
+Proof.
+  intros Hk. destruct o.
+  - apply ok4_Publish.
+  - apply ok4_CloneS.
+  - apply ok4_CloseS.
+  - apply ok4_DropS.
+  - apply ok4_ConvS.
+  - apply ok4_observers. exact Logic.I.
+  - apply ok4_Subscribe.
+  - apply ok4_Unsubscribe.
+  - apply ok4_CloneR.
+  - apply ok4_CloseR.
+  - apply ok4_DropR.
+  - apply ok4_ConvR. destruct kc; [destruct (Hk eq_refl) | reflexivity].
+  - apply ok4_TryRecv.
+  - apply ok4_RecvTimeout0.
+  - apply ok4_MkRecv.
+  - apply ok4_Poll.
+  - apply ok4_DropF.
+  - apply ok4_PollNext.
+  - apply ok4_observers. exact Logic.I.
+  - apply ok4_observers. exact Logic.I.
+  - apply ok4_observers. exact Logic.I.
+Qed.
+
+Lemma check4_sound c kc : forall h s sp sp4,
+  (kc = true -> Forall not_conv_r h) -> Inv c s sp -> Inv4 c kc s sp4 ->
+  forall v, In v (check4_from c s sp4 h) ->
+  exists h1 h2, h = h1 ++ h2 /\ v4_ok c kc (state_from c s h1) v /\ Inv c (state_from c s h1) (spec_from c s sp h1).
+Proof.
+  induction h as [|o h IH]; intros s sp sp4 Hk I J v Hv; [destruct Hv|].
+  cbn [check4_from] in Hv. destruct (step c s o) as [s1 [rs w]] eqn:Es.
+  destruct (s4_step sp4 o rs) as [sp41 vs] eqn:Ep.
+  assert (Hko : kc = true -> not_conv_r o).
+  { intros A. specialize (Hk A). inversion Hk; assumption. }
+  assert (Hkh : kc = true -> Forall not_conv_r h).
+  { intros A. specialize (Hk A). inversion Hk; assumption. }
+  destruct (step4_ok c kc o Hko s sp sp4 s1 rs w sp41 vs I J Es Ep) as [J1 Hvs].
+  destruct (sp_step sp o rs) as [sp1 vs0] eqn:Ep0.
+  destruct (step_ok c o s sp s1 rs w sp1 vs0 I Es Ep0) as [I1 _].
+  apply in_app_or in Hv. destruct Hv as [Hv|Hv].
+  - exists [], (o :: h). split; [reflexivity|]. split; [apply Hvs; exact Hv | exact I].
+  - destruct (IH s1 sp1 sp41 Hkh I1 J1 v Hv) as [h1 [h2 [E [Hok I2]]]].
+    exists (o :: h1), h2. split; [rewrite E; reflexivity|].
+    rewrite state_from_cons, spec_from_cons, Es. cbn [fst snd]. rewrite Ep0. cbn [fst]. auto.
+Qed.
+
+Lemma violations4_sound c kc a cap h v :
+  (kc = true -> a = false /\ Forall not_conv_r h) ->
+  In v (violations4 c a cap h) ->
+  exists h1 h2, h = h1 ++ h2 /\ v4_ok c kc (state_from c (init a cap) h1) v /\
+                Inv c (state_from c (init a cap) h1) (spec_after c a cap h1).
+Proof.
+  intros Hk Hv. unfold violations4 in Hv. unfold spec_after.
+  eapply (check4_sound c kc h (init a cap) (sp_init cap) s4_init); eauto.
+  - intros A. apply Hk. exact A.
+  - apply inv_init.
+  - apply inv4_init. intros A. apply Hk. exact A.
+Qed.
+
+(** the theorems *)
+(* never, for any fix switches: a closed sender handle accepting a send, or closing twice *)
+Theorem c04_closed_sender_rejects c a cap h s :
+  ~ In (V4ClosedTxAccepts s) (violations4 c a cap h) /\ ~ In (V4DoubleCloseTx s) (violations4 c a cap h).
+Proof.
+  split; intros Hv; destruct (violations4_sound c false a cap h _ (fun A => ltac:(discriminate)) Hv) as [h1 [h2 [_ [Hok _]]]];
+    exact Hok.
+Qed.
+
+(* receiver count: with patch F-07, and on the current code for sync channels whose receivers are never converted *)
+Definition count_clause (v : clause4) : Prop :=
+  match v with V4SendAfterLastRx _ | V4ClosedWithLiveRx _ | V4DoubleCloseRx _ => True | _ => False end.
+
+Theorem c04_count_postfix_F07 c : fix07 c = true ->
+  forall a cap h v, count_clause v -> ~ In v (violations4 c a cap h).
+Proof.
+  intros F7 a cap h v Hc Hv.
+  destruct (violations4_sound c false a cap h _ (fun A => ltac:(discriminate)) Hv) as [h1 [h2 [_ [Hok _]]]].
+  destruct v; try contradiction; cbn in Hok; rewrite F7 in Hok; discriminate.
+Qed.
+
+Theorem c04_count_except_F07 c cap h v :
+  Forall not_conv_r h -> count_clause v -> ~ In v (violations4 c false cap h).
+Proof.
+  intros Hf Hc Hv.
+  destruct (violations4_sound c true false cap h _ (fun _ => conj eq_refl Hf) Hv) as [h1 [h2 [_ [Hok _]]]].
+  destruct v; try contradiction; cbn in Hok; rewrite orb_true_r in Hok; discriminate.
+Qed.
+
+Lemma Forall2_len {A B} (R : A -> B -> Prop) l1 l2 : Forall2 R l1 l2 -> length l1 = length l2.
+Proof. induction 1; cbn; congruence. Qed.
+
+(* a handle that observed Disconnected never obtains a value afterwards *)
+Theorem c04_value_after_disc_postfix_F04 c : fix04 c = true ->
+  forall a cap h r, ~ In (V4ValueAfterDisc r) (violations4 c a cap h).
+Proof.
+  intros F4 a cap h r Hv.
+  destruct (violations4_sound c false a cap h _ (fun A => ltac:(discriminate)) Hv) as [h1 [h2 [_ [Hok _]]]].
+  cbn in Hok. unfold cls_of in Hok. rewrite F4 in Hok. discriminate.
+Qed.
+
+Theorem c04_value_after_disc_except_F04 c a cap h r :
+  Forall not_clone_s h -> ~ In (V4ValueAfterDisc r) (violations4 c a cap h).
+Proof.
+  intros Hf Hv.
+  destruct (violations4_sound c false a cap h _ (fun A => ltac:(discriminate)) Hv) as [h1 [h2 [E [Hok I]]]].
+  cbn in Hok. unfold cls_of in Hok. apply orb_false_iff in Hok. destruct Hok as [_ Hok].
+  rewrite (Forall2_len _ _ _ (i_tx _ _ _ I)) in Hok. unfold spec_after in Hok.
+  rewrite spec_from_single in Hok; [cbn in Hok; discriminate|].
+  rewrite E in Hf. apply Forall_app in Hf. tauto.
+Qed.
+
+(* F-03 (topic): a closed receiver handle keeps handing out values / "empty": refuted for every choice of switches *)
+Definition closed_rx_rejects (c : cfg) : Prop := forall a cap h r, ~ In (V4ClosedRxAccepts r) (violations4 c a cap h).
+
+Definition w_F03 : list op := [CloseR 0; TryRecv 0].
+
+Theorem c04_closed_rx_refuted_F03 : ~ closed_rx_rejects pre_fix /\ ~ closed_rx_rejects post_fix.
+Proof.
+  split; intros H; apply (H false 2 w_F03 0); vm_compute; left; reflexivity.
+Qed.
+
+(* witnesses of the other refutations *)
+Definition C04_full (c : cfg) : Prop :=
+  forall a cap h v, In v (violations4 c a cap h) -> match v with V4ClosedRxAccepts _ => True | _ => False end.
+
+Definition w_F07_conv : list op := [CloneR 0 1; CloseR 0; ConvR 0; CloseR 0; Publish 0 0 1].
+Definition w_F07_adrop : list op := [CloneR 0 1; CloseR 0; DropR 0; Publish 0 0 1].
+Definition w_F07_under : list op := [CloseR 0; DropR 0; Publish 0 0 1].
+Definition w_F04_val : list op := [Subscribe 0 1; CloneS 0 1; DropS 1; TryRecv 0; Publish 0 1 8; TryRecv 0].
+Definition w_F04_zombie : list op := [Subscribe 0 1; CloseS 0; CloneS 0 1; TryRecv 0; Publish 1 1 8; TryRecv 0].
+
+Lemma witness_F07_conv : violations4 pre_fix false 2 w_F07_conv = [V4DoubleCloseRx 0; V4ClosedWithLiveRx 0].
+Proof. vm_compute. reflexivity. Qed.
+Lemma witness_F07_adrop : violations4 pre_fix true 2 w_F07_adrop = [V4ClosedWithLiveRx 0].
+Proof. vm_compute. reflexivity. Qed.
+Lemma witness_F07_under : violations4 pre_fix true 2 w_F07_under = [V4SendAfterLastRx 0].
+Proof. vm_compute. reflexivity. Qed.
+Lemma witness_F04_val : violations4 pre_fix false 2 w_F04_val = [V4ValueAfterDisc 0].
+Proof. vm_compute. reflexivity. Qed.
+Lemma witness_F04_zombie : violations4 pre_fix false 2 w_F04_zombie = [V4ValueAfterDisc 0].
+Proof. vm_compute. reflexivity. Qed.
+Lemma witnesses4_postfix :
+  violations4 post_fix false 2 w_F07_conv = [] /\ violations4 post_fix true 2 w_F07_adrop = [] /\
+  violations4 post_fix true 2 w_F07_under = [] /\ violations4 post_fix false 2 w_F04_val = [] /\
+  violations4 post_fix false 2 w_F04_zombie = [].
+Proof. vm_compute. auto 6. Qed.
+
+Theorem c04_refuted_F07 : ~ C04_full pre_fix.
+Proof. intros H. specialize (H true 2 w_F07_under (V4SendAfterLastRx 0)). apply H. vm_compute. left. reflexivity. Qed.
+Theorem c04_refuted_F04 : ~ C04_full pre_fix.
+Proof. intros H. specialize (H false 2 w_F04_val (V4ValueAfterDisc 0)). apply H. vm_compute. left. reflexivity. Qed.
+
+(* with the patches every clause but the closed-receiver one holds *)
+Theorem c04_postfix c : fix04 c = true -> fix07 c = true -> C04_full c.
+Proof.
+  intros F4 F7 a cap h v Hv. destruct v; try exact Logic.I; exfalso.
+  - eapply c04_value_after_disc_postfix_F04; eauto.
+  - eapply (c04_count_postfix_F07 c F7 a cap h (V4SendAfterLastRx s)); [exact Logic.I | exact Hv].
+  - eapply (c04_count_postfix_F07 c F7 a cap h (V4ClosedWithLiveRx s)); [exact Logic.I | exact Hv].
+  - eapply (proj1 (c04_closed_sender_rejects c a cap h s)); exact Hv.
+  - eapply (proj2 (c04_closed_sender_rejects c a cap h s)); exact Hv.
+  - eapply (c04_count_postfix_F07 c F7 a cap h (V4DoubleCloseRx r)); [exact Logic.I | exact Hv].
+Qed.
